@@ -46,20 +46,20 @@ long strtol(const char *nptr, char **endptr, int base)
     _Bool neg = 0;
     if (nptr[i] == '-') { neg = 1; i++; }
     else if (nptr[i] == '+') i++;
+    /* (no division, no variable multiplication: a 64-bit divider per unwound iteration dominated the formula) */
     unsigned long acc = 0;
     _Bool any = 0, ovf = 0;
     while (nptr[i] >= '0' && nptr[i] <= '9') {
         unsigned long d = (unsigned long)(nptr[i] - '0');
-        if (acc > (ULONG_MAX - d) / 10) ovf = 1;
-        else acc = acc * 10 + d;
+        if (acc > (unsigned long)LONG_MAX / 10) ovf = 1;          /* acc * 10 would already exceed LONG_MAX + 1 */
+        else acc = (acc << 3) + (acc << 1) + d;                   /* <= 9223372036854775809, no wrap-around */
         any = 1;
         i++;
     }
     if (!any) i = 0;
     long v;
     if (neg) {
-        if (ovf || acc > (unsigned long)LONG_MAX + 1) v = LONG_MIN;
-        else if (acc == (unsigned long)LONG_MAX + 1) v = LONG_MIN;
+        if (ovf || acc >= (unsigned long)LONG_MAX + 1) v = LONG_MIN;
         else v = -(long)acc;
     } else {
         if (ovf || acc > (unsigned long)LONG_MAX) v = LONG_MAX;
@@ -85,14 +85,25 @@ static void xv_ap_puts(struct xv_ap_sink *k, const char *str)
     for (i = 0; str[i] != '\0'; i++)
         xv_ap_putc(k, str[i]);
 }
+static const unsigned long xv_ap_p10[20] = { 1UL, 10UL, 100UL, 1000UL, 10000UL, 100000UL, 1000000UL, 10000000UL, 100000000UL,
+    1000000000UL, 10000000000UL, 100000000000UL, 1000000000000UL, 10000000000000UL, 100000000000000UL, 1000000000000000UL,
+    10000000000000000UL, 100000000000000000UL, 1000000000000000000UL, 10000000000000000000UL };
+/* decimal digits by repeated subtraction of powers of ten (no division: see strtol) */
+#define XV_AP_SUB(mag, p, d) if ((mag) >= (p)) { (mag) -= (p); (d)++; }
 static void xv_ap_putzd(struct xv_ap_sink *k, size_t v)
 {
-    char dig[20];
-    unsigned nd = 0;
     unsigned long mag = v;
     if ((long)v < 0) { xv_ap_putc(k, '-'); mag = 0UL - v; }
-    do { dig[nd] = (char)('0' + (int)(mag % 10)); nd++; mag /= 10; } while (mag != 0);
-    while (nd > 0) { nd--; xv_ap_putc(k, dig[nd]); }
+    unsigned nd = 1, j;
+    for (j = 1; j < 20; j++)            /* loop xv_ap_putzd.0 */
+        if (mag >= xv_ap_p10[j]) nd = j + 1;
+    for (j = nd; j > 0; j--) {          /* loop xv_ap_putzd.1 */
+        unsigned long p = xv_ap_p10[j - 1];
+        int d = 0;
+        XV_AP_SUB(mag, p, d) XV_AP_SUB(mag, p, d) XV_AP_SUB(mag, p, d) XV_AP_SUB(mag, p, d) XV_AP_SUB(mag, p, d)
+        XV_AP_SUB(mag, p, d) XV_AP_SUB(mag, p, d) XV_AP_SUB(mag, p, d) XV_AP_SUB(mag, p, d)
+        xv_ap_putc(k, (char)('0' + d));
+    }
 }
 static int xv_ap_end(struct xv_ap_sink *k)
 {
